@@ -76,6 +76,7 @@ fn judge<P: PT>(bits: u64, args: &[u64], l: &mut Local) -> Result<(), Viol> {
             if bits == 0 {
                 l.label("sample_is_zero");
             }
+            l.sample(|| json!({"type": P::NAME, "rng_words": args.iter().take(4).map(|w| hex(*w)).collect::<Vec<_>>(), "sample": hex(bits), "value": x.to_f64_exact()}));
             Ok(())
         }
         _ => Err(Viol::wrong_s(format!("{}.sample", P::NAME), args, "a real posit p with 0 <= p < 1".into(), hex(bits))),
